@@ -581,7 +581,9 @@ impl Machine {
         or_frame.prelude.boip = 0;
         or_frame.prelude.biip = 0;
         or_frame.prelude.tr = 0;
-        or_frame.prelude.h = 0;
+        // popping the stub must not cut the heap below what the machine owns
+        // (cell 0 and the pre-allocated resource error term)
+        or_frame.prelude.h = self.machine_st.heap.cell_len();
         or_frame.prelude.b0 = 0;
         or_frame.prelude.attr_var_queue_len = 0;
 
